@@ -37,10 +37,15 @@ def bounds_rule(ck, mod, label):
                 v = fb.A.value(S.ops[0])
                 oklo = fb.prove_nonneg_cases(v.add(Lin.const(-lo)), S.b)
                 okhi = fb.prove_nonneg_cases(v.scale(-1).add(Lin.const(hi)), S.b)
-                ck.ob(bool(oklo and okhi), "R-C06-INV", f.name, "field-invariant@+%d#%s[%s]" % (o, _an(f, S), label),
-                      "value stored into the buffer-position field stays within [%d,%d]" % (lo, hi),
-                      "value %s stored into the buffer-position field is not shown to stay within [%d,%d]: later calls index the block buffer with it"
-                      % (fb.A.names(v), lo, hi), where=relpath(S.where))
+                if oklo and okhi:
+                    ck.ok("R-C06-INV", f.name, "field-invariant@+%d#%s[%s]" % (o, _an(f, S), label),
+                          "value stored into the buffer-position field stays within [%d,%d]" % (lo, hi), where=relpath(S.where))
+                elif fb.prove_nonneg_cases(v.add(Lin.const(-hi - 1)), S.b):
+                    ck.bad("R-C06-INV", f.name, "field-invariant@+%d#%s[%s]" % (o, _an(f, S), label),
+                           "value %s stored into the buffer-position field always exceeds %d here: later calls index the block buffer out of bounds" % (fb.A.names(v), hi),
+                           where=relpath(S.where))
+                else:
+                    unknown.append("%s %s: value %s stored into the buffer-position field not shown to stay within [%d,%d]" % (f.name, relpath(S.loc), fb.A.names(v), lo, hi))
     return n, unknown
 
 
@@ -183,6 +188,7 @@ def run(ck, build):
     ck.floor("R-C06-BOUNDS", "accesses proven in bounds", n["proven"], 1500)
     for u in unknown:
         ck.note("bounds not decided: " + u)
+    ck._c06_unknown = unknown
     nacc = bytewise_const_rule(ck, mod, label)
     ck.floor("R-C06-BYTEWISE", "accesses to caller byte buffers examined (N0)", nacc, 300)
     ns = shift_rule(ck, mod, label)
@@ -234,6 +240,19 @@ def run(ck, build):
             return getattr(self._ck, n_)
     C03.cmp_rule(_W(ck), mod, label)
     witness_rule(ck, build)
+    # exact read set of the streaming hash input, per buffer-position class (D-COV in read mode)
+    from .. import cov
+    ck.rule("R-C06-READS", "tinyjambu_hash_update reads exactly in[0, inlen): for each of the 16 buffer-position classes and every (alignment, length) class the memcpy sources tile [0, inlen) "
+            "(D-COV in read mode; trip counts from ScalarEvolution) - so no byte beyond the declared input can influence a digest")
+    fu = mod.fn("tinyjambu_hash_update")
+    posn_off = mod.field("tinyjambu_hash_state_p_t", "posn")["offset"]
+    ncl = 0
+    for pz in range(16):
+        ncls, bad, used = cov.coverage(fu, fu.param_index("in"), fu.param_index("inlen"), W=16, Q0=4, mode="read", field_consts={(0, posn_off): pz})
+        ncl += ncls
+        ck.ob(bad is None, "R-C06-READS", fu.name, "reads-exactly-input(posn=%d)[%s]" % (pz, label),
+              "with %d byte(s) buffered, exactly in[0, inlen) is read in all %d (alignment, length) classes" % (pz, ncls),
+              "with %d byte(s) buffered and %s: %s" % (pz, bad[0] if bad else "", bad[1] if bad else ""), where=relpath("%s:%d" % (fu.file, fu.line)))
     # assembly backends: stores only to the four state words / own frame, loads inside the structure (C05's machine)
     from . import C05
     from .. import asmsrc
@@ -281,5 +300,9 @@ def run(ck, build):
     got = {v["rule"] for v in sub.violations}
     for want in ("R-C06-BOUNDS", "R-C06-BYTEWISE", "R-C06-CONST", "R-C06-SHIFT"):
         ck.control("c06_bad.c:" + want, want in got, "rules violated on fixture: %s" % sorted(got))
+    if getattr(ck, "_c06_unknown", None) and not ck.violations:
+        # on the pinned tree every access is proven; an access the affine analysis can no longer bound is 'unknown', not a verdict
+        raise Broken("memory safety of %d access(es) can no longer be established by the affine bounds analysis (neither proven nor refuted), first: %s"
+                     % (len(ck._c06_unknown), ck._c06_unknown[0][:300]))
     ck.coverage_extra.update({"accesses_proven": n["proven"], "accesses_not_decided": n["unknown"], "byte_buffer_accesses": nacc, "shifts": ns,
                               "exhaustive": True, "exhaustive_over": "every load/store/mem intrinsic/call argument of every library function in the host configuration"})
